@@ -111,6 +111,11 @@ func (p *FunctionBuilder) CreateFunction(m *bmodel.MethodEntry) (*gmodel.Functio
 	}
 	seenNames := make(map[string]bool, len(operandNames))
 	for _, name := range operandNames {
+		switch name {
+		case "len", "make", "copy", "nil":
+			// The generated statements rely on these predeclared identifiers.
+			return nil, logger.Errorf("%v: operand name %q hides a predeclared identifier that the generated function uses; rename the parameter or the receiver", p.fset.Position(m.Method.Pos()), name)
+		}
 		if seenNames[name] {
 			return nil, logger.Errorf("%v: operand name %q is used more than once in the generated function; rename the parameter or the receiver", p.fset.Position(m.Method.Pos()), name)
 		}
